@@ -142,6 +142,13 @@ def strata(tier):
             if any(delim in x for x in t):
                 continue
             yield {"kind": "str", "tokens": t, "delim": delim, "doc": PC.ZOO_DOC}
+    # keys with back-slashes, quotes and white space around the delimiter
+    bdoc = {"a\\": {"b": 1, "": 5}, "a/b": 2, "a": {"b": 3, "\\b": 6}, "\\": {"x": 4}, "a\\\\": {"b": 7}, " a": {" b ": 8}, "'a'": {'"b"': 9}, "a.b": {"c": 10}}
+    for t in (["a\\", "b"], ["\\", "x"], ["a\\\\", "b"], ["a", "\\b"], ["a\\", ""], [" a", " b "], ["'a'", '"b"'], ["a\\"], ["a.b", "c"]):
+        for delim in ("/", ".", ":", "|"):
+            if any(delim in x for x in t):
+                continue
+            yield {"kind": "str", "tokens": t, "delim": delim, "doc": bdoc}
     for j in range(30 if tier == "quick" else 150):
         rng = G.rng_for("C10-str", j)
         doc = G.doc(rng, 3, 4)
@@ -151,6 +158,20 @@ def strata(tier):
         r1 = {"path": PC.mkpath([{"p": "prim", "v": "country"}, {"p": "prim", "v": k}]), "cond": PC.L("value", "equal_to", k), "cast": None, "doc_spec": None}
         r2 = {"path": PC.mkpath([{"p": "prim", "v": k}]), "cond": PC.L("value", "in_", [k, "x"]), "cast": None, "doc_spec": k}
         yield {"kind": "yaml", "rules": [r1, r2], "sseed": j, "doc": {"country": {k: k, "zz": 1}, k: "nope"}, "file": j % 2 == 0}
+    # the same part specification at two positions of one path; rules sharing one cast / doc block
+    pp = {"p": "map", "key": PC.L("key", "in_", ["a", "b", "k"]), "value": PC.L("value", "is_instance", {"$type": "dict"})}
+    pl = {"p": "list", "index": PC.L("index", "less_than", 2)}
+    rdoc = {"a": {"a": {"x": 1}, "b": 2, "k": {"a": {}}}, "b": {"k": {"b": {"z": 0}}}, "l": [[1, 2, 3], [4, 5, 6], [7]]}
+    for j, parts in enumerate(([pp, pp], [pp, pp, pp], [{"p": "prim", "v": "l"}, pl, pl], [pp, {"p": "mol"}, pp])):
+        for ss in (0, 2, 1):
+            yield {"kind": "path", "path": PC.mkpath(parts), "sseed": ss, "doc": rdoc}
+            yield {"kind": "pathspec", "path": dict(PC.mkpath(parts), datum=None, multi="all", order="dm"), "sseed": ss, "doc": rdoc}
+    s1 = {"path": PC.mkpath([{"p": "prim", "v": "a"}]), "cond": PC.L("value", "is_instance", {"$type": "int"}), "cast": [["str", "int"]], "doc_spec": {"description": ["same"], "examples": ["e"]}}
+    s2 = {"path": PC.mkpath([{"p": "prim", "v": "b"}, {"p": "list"}]), "cond": PC.L("value", "less_than", 3), "cast": [["str", "int"]], "doc_spec": {"description": ["same"], "examples": ["e"]}}
+    s3 = {"path": PC.mkpath([{"p": "prim", "v": "c"}]), "cond": PC.L("value", "equal_to", True), "cast": [["str", "bool"]], "doc_spec": None}
+    for j, rl in enumerate(([s1, s2], [s1, s2, s3], [s3, s3, s1, s2])):
+        for ss in (1, 3, 0):
+            yield {"kind": "yaml", "rules": rl, "sseed": ss, "doc": {"a": "5", "b": ["1", 5, "y"], "c": "true"}, "file": ss == 3, "block": False}
     # the same rule listed twice (identical entries, entries differing only in doc, with another rule in between)
     d1 = {"path": PC.mkpath([{"p": "prim", "v": "a"}]), "cond": PC.L("value", "is_instance", {"$type": "int"}), "cast": None, "doc_spec": "first"}
     d2 = dict(d1, doc_spec="second")
@@ -368,7 +389,12 @@ def run_path(case, ctx):
     if not ok:
         ctx.violate(f"C10/path/api-construct:{api.type}", f"{api!r}")
         return
-    ok, obj = call(DP.DataPath.from_part_specs, *M.deep_copy(specs))
+    given = M.deep_copy(specs)
+    if case["sseed"] % 2 == 0:
+        given = build.alias_spec(given)  # equal part specs are one shared mapping object
+        if any(given[i] is given[j] for i in range(len(given)) for j in range(i) if type(given[i]) is dict):
+            ctx.count("specs-with-shared-mappings")
+    ok, obj = call(DP.DataPath.from_part_specs, *given)
     if not ok:
         ctx.violate(f"C10/path/raise:{obj.type}", f"from_part_specs(*{specs!r}) raised {obj!r}")
         return
@@ -403,7 +429,7 @@ def run_pathspec(case, ctx):
     if not ok:
         ctx.violate(f"C10/pathspec/api-construct:{api.type}", f"{api!r}; {pterm}")
         return
-    ok, obj = call(DP.DataPath.from_spec, M.deep_copy(spec))
+    ok, obj = call(DP.DataPath.from_spec, build.alias_spec(spec) if case["sseed"] % 2 == 0 else M.deep_copy(spec))
     (key,) = spec
     if not ok:
         ctx.violate(f"C10/pathspec/raise:{obj.type}", f"DataPath.from_spec({spec!r}) raised {obj!r}")
@@ -545,7 +571,7 @@ def run_rule(case, ctx):
     if not ok:
         ctx.violate(f"C10/rule/api-construct:{api.type}", f"{api!r}")
         return
-    ok, obj = call(valida.Rule.from_spec, M.deep_copy(spec))
+    ok, obj = call(valida.Rule.from_spec, build.alias_spec(spec) if case["sseed"] % 2 == 0 else M.deep_copy(spec))
     dshape = DOC_SHAPES.index(rterm.get("doc_spec")) if rterm.get("doc_spec") in DOC_SHAPES else -1
     if not ok:
         ctx.violate(f"C10/rule/raise:{obj.type}/doc{dshape}", f"Rule.from_spec({spec!r}) raised {obj!r}")
@@ -623,7 +649,10 @@ def run_yaml(case, ctx):
         return
     block = bool(case.get("block", case["sseed"] % 3 == 0))
     try:
-        text, rt_ok = yaml_text({"rules": specs}, block)
+        # (equal sub-structures as one shared object: the YAML writer then emits anchors and aliases)
+        text, rt_ok = yaml_text(build.alias_spec({"rules": specs}) if case["sseed"] % 2 == 1 and not block else {"rules": specs}, block)
+        if "&id" in text:
+            ctx.count("yaml:anchors-and-aliases")
     except Exception:
         text, rt_ok = yaml_text({"rules": specs})
         block = False
